@@ -590,3 +590,12 @@ Definition excl_star (k : option pkind) (_ : anno) : bool := kf_star_param k.
 Definition excl_dotted (simp : list (string * string)) (k : option pkind) (a : anno) : bool := kf_dotted_name simp k a.
 Definition excl_known (simp : list (string * string)) (k : option pkind) (a : anno) : bool :=
   kf_star_param k || kf_dotted_name simp k a.
+
+(* a stub generated from this very source fits it: every function of the stub finds, under the same
+   qualified path, a source function with the same FunctionKey and the same positional names — otherwise
+   libcst silently skips the function and none of its annotations is applied *)
+Definition stub_fits (stub src : list stmt) : bool :=
+  let sdefs := stub_funs_list src in
+  forallb (fun ph => existsb (fun qh => key_eqb (fst qh) (d_params (snd qh)) (fst ph) (d_params (snd ph))
+                                        && names_match (d_params (snd qh)) (d_params (snd ph))) sdefs)
+          (stub_funs_list stub).
